@@ -371,6 +371,41 @@ func k8(args []string) {
 			res.C16 = append(res.C16, k8Case{"subpackage-test-file-only: tests-pass-without-tag", err == nil && strings.Contains(string(o), "ok"), tail(string(o), 400)})
 		}
 	}
+	// a third tree: a co file of a sub-package IMPORTS the package above it, whose generators are generated in
+	// the same run (finding D26 on this tree: the optimise stage type-checks the temporary copy of the
+	// sub-package against the real upper package, which has no generated file yet)
+	if _, err := os.Stat(cogen); err == nil {
+		root := filepath.Join(mod, "g3")
+		pkg := filepath.Join(root, "pkg")
+		files := map[string]string{
+			"pkg/gen_co.go":   "//go:build co\n\npackage pkg\n\nimport \"github.com/goghcrow/go-co\"\n\n//go:generate true\n\nfunc Nums(n int) co.Iter[int] {\n\tfor i := 0; i < n; i++ {\n\t\tco.Yield(i)\n\t}\n\treturn nil\n}\n",
+			"pkg/sub/u_co.go": "//go:build co\n\npackage sub\n\nimport (\n\t\"github.com/goghcrow/go-co\"\n\t\"scratch/g3/pkg\"\n)\n\nfunc Twice(n int) co.Iter[int] {\n\tfor v := range pkg.Nums(n) {\n\t\tco.Yield(2 * v)\n\t}\n\treturn nil\n}\n",
+		}
+		for rel, c := range files {
+			mustWrite(filepath.Join(root, rel), c)
+		}
+		run := func() (string, error) {
+			c := exec.Command(cogen)
+			c.Dir = pkg
+			c.Env = append(os.Environ(), "GOFILE=gen_co.go")
+			o, err := c.CombinedOutput()
+			return string(o), err
+		}
+		o1, err1 := run()
+		first := snapshot(root)
+		o2, err2 := run()
+		second := snapshot(root)
+		same := len(first) == len(second)
+		for p, c := range first {
+			if second[p] != c {
+				same = false
+			}
+		}
+		_, hasSub := first["pkg/sub/u.go"]
+		ok := err1 == nil && err2 == nil && hasSub && same
+		detail := fmt.Sprintf("first run: ok=%v sub/u.go written=%v %s; second run: ok=%v identical=%v %s", err1 == nil, hasSub, lastLineWith(o1, "panic"), err2 == nil, same, lastLineWith(o2, "panic"))
+		res.C16 = append(res.C16, k8Case{"import-between-generated-packages", ok, detail})
+	}
 	// ---------------- C13: compiler directives of bystander declarations ----------------
 	// a //go:embed variable and a //go:noinline function next to generators: the generated package must
 	// still embed the file.  Variant "lit" also holds a generator FUNCTION LITERAL (finding D15 on the
